@@ -59,6 +59,12 @@ def truncation(ck):
             n += 1
             ck.violation("C18.7", f"BionanoAlignment.parse:{field}", w, "the value read back is rounded or shifted, not truncated: a "
                          "written coordinate x.6 comes back as x+1", found=T.show(t)[:120], required=f"int({leaf[0][1] if leaf else field})")
+        elif len({x[1] for x in leaf}) > 1 and names & {"sorted", "min", "max", "sort"}:
+            n += 1
+            ck.violation("C18.7", f"BionanoAlignment.parse:{field}", w,
+                         f"the value read back for `{field}` is chosen among {sorted({x[1] for x in leaf})} by size: COMA writes "
+                         "QryStartPos > QryEndPos for '-' records (and start > end is how the strand shows), so every such record reads "
+                         "back with the two values exchanged", found=T.show(t)[:120], required=f"int(<the column of {field}>)")
         else:
             raise AnalysisError(f"{w}: conversion of field {field} not recognised: {T.show(t)[:160]}")
     ck.floor("C18.7 integer fields converted in BionanoAlignment.parse", n, INT_FIELDS)
@@ -144,6 +150,31 @@ def pair_parsers(ck):
         ck.ok("C18.12", "XMAP pair parsers", plain.where, f"{n} return paths: none re-orders the pairs by strand")
 
 
+def main_output_always_written(ck, rule):
+    """A run that ends normally has written its XMAP: every path through Program.run passes the writer with the output file.
+    A file that argparse opened and nobody wrote has no '#h' line - the project's reader fails on it instead of returning []."""
+    p = ck.ctx.p
+    ck.clause(rule, "every normal end of Program.run has passed XmapReader.writeAlignments(<the output file>, ...): a run without "
+                    "records still writes the header lines (an empty file has no '#h' line and cannot be read back)")
+    run_fn = p.get_function("src.program:Program.run")
+    n = 0
+    for pa in explore(ck, run_fn, unroll=(0, 1)):
+        if pa.outcome not in ("return", "fall"):
+            continue
+        n += 1
+        wrote = [e for e in pa.events if e.kind == "call" and e.term[0] == "app" and e.term[1].endswith("XmapReader.writeAlignments")]
+        if wrote:
+            continue
+        conds = "; ".join(("" if tv else "not ") + T.show(c)[:60] for c, tv, _ in pa.state.assumptions[-3:])
+        ck.violation(rule, short(run_fn) + ":always-written", where(run_fn, pa.node),
+                     "a run can end without writing its output file: the file argparse created stays empty (no header line), and "
+                     "reading it back fails instead of giving no alignments",
+                     found="path under: " + (conds or "<no condition>"), required="writeAlignments(self.args.outputFile, ...) on every path")
+        return
+    ck.floor(f"{rule} normal ends of Program.run", n, 1)
+    ck.ok(rule, short(run_fn) + ":always-written", run_fn.where, f"{n} path(s) through Program.run, each writes the output file", "")
+
+
 def run(ck):
     ck.clause("C18.1", "writer header / record / reader column tables agree (as C02.1, C02.2)")
     ck.clause("C18.2", "framing: separators, comment prefix, header prefix, header=False")
@@ -171,6 +202,7 @@ def run(ck):
                                         "src.parsers.xmap_alignment_pair_parser", "src.correlation.bionano_alignment"), floor=15)
     parser_maps(ck)
     pair_parsers(ck)
+    main_output_always_written(ck, "C18.14")
     w = extract_writer(ck)
     r = extract_reader(ck)
     column_table(ck, w, r, "C18.1")
